@@ -111,6 +111,8 @@ def run(ctx):
                        plan_script=ds.hist_two_roots, setup=ds.setup_two_roots)
     ds.run_hist_stream(ctx, 5 if quick else 60, 6, props={'C06'}, weights={'deploy': 1}, stream='drift_then_deploy',
                        plan_script=ds.hist_drift_then_deploy, setup=ds.setup_two_roots)
+    ds.run_hist_stream(ctx, 4 if quick else 40, 6, props={'C06'}, weights={'deploy': 1}, stream='shrink_then_rollbacks',
+                       plan_script=ds.hist_shrink_then_rollbacks, setup=ds.setup_two_roots)
     ds.run_hist_stream(ctx, 5 if quick else 60, 8, props={'C06'}, weights={'deploy': 1}, stream='repeat_rollback',
                        plan_script=ds.hist_repeat_rollback, setup=ds.setup_two_roots)
     ds.run_hist_stream(ctx, 16 if quick else 250, 6 if quick else 9, props={'C06'},
